@@ -75,12 +75,18 @@ def make_inputs(cfg, d, seed):
         extra[i + 1] = "file:%s:0:1:\t" % tbl
     if cfg.get("rg_file_name"):
         extra += ["--read_group", "file_name"]
+        # the file is passed through a symbolic link with another name (a staging folder): the group is named after what stands on the command line
+        os.makedirs(os.path.join(d, "staged"), exist_ok=True)
+        for suffix in ("", ".bai"):
+            os.symlink(os.path.join(d, "r.bam" + suffix), os.path.join(d, "staged", "ctrl.bam" + suffix))
     return extra
 
 
 def args_for(cfg, d, out, extra, saves=None):
     a = pipeline.std_args(d, out, threads=1, annotated=cfg.get("annotated", True), complete=cfg.get("complete", True), extra=extra,
                           bam_list=os.path.join(d, "exps.list") if cfg.get("experiments") else None)
+    if cfg.get("rg_file_name"):
+        a[a.index("--bam") + 1] = os.path.join(d, "staged", "ctrl.bam")
     if cfg.get("gz"):
         a.remove("--no_gzip")
     if saves:
